@@ -199,6 +199,11 @@ package plugin
 //@   requires P1: prefixOK(p) && ra != nil
 //@   assigns heap(ndp.RouterAdvertisement) at ra, new mem(ndp.Option), new heap(ndp.PrefixInformation), new mem(netip.Prefix), new mem(system.IP), ghost.clockRead, ghost.now, ghost.lastAddrs
 //@   ensures E1 [C01]: !p.Auto ==> result == nil && len(ra.Options) == old(len(ra.Options)) + 1 && isPI(ra.Options[old(len(ra.Options))]) && piMatches(as(ra.Options[old(len(ra.Options))], "*ndp.PrefixInformation"), p, p.Prefix, prefixLifetimeV(p, ghost.clockRead), prefixLifetimeP(p, ghost.clockRead))
+//@   ghost local cur Slice
+//@   ghost local cerr Iface
+//@   at call current() (cr, ce): ghost.cur = cr ; ghost.cerr = ce
+//@   ensures E2 [C13]: p.Auto ==> (result != nil) == (ghost.cerr != nil) && (result != nil ==> len(ra.Options) == old(len(ra.Options)))
+//@   ensures E3 [C13]: p.Auto && result == nil ==> len(ra.Options) == old(len(ra.Options)) + len(typed(ghost.cur, "[]netip.Prefix")) && forall(j, 0, len(typed(ghost.cur, "[]netip.Prefix")), isPI(ra.Options[old(len(ra.Options)) + j]) && piMatches(as(ra.Options[old(len(ra.Options)) + j], "*ndp.PrefixInformation"), p, typed(ghost.cur, "[]netip.Prefix")[j], prefixLifetimeV(p, ghost.clockRead), prefixLifetimeP(p, ghost.clockRead)))
 //@   opt safety [C01,C17]
 //@   opt frame [C01]
 
@@ -317,6 +322,11 @@ package plugin
 //@   requires P1: routeOK(r) && ra != nil
 //@   assigns heap(ndp.RouterAdvertisement) at ra, new mem(ndp.Option), new heap(ndp.RouteInformation), new mem(netip.Prefix), new mem(system.Route), ghost.clockRead, ghost.now, ghost.lastRoutes
 //@   ensures E1 [C01]: !r.Auto ==> result == nil && len(ra.Options) == old(len(ra.Options)) + 1 && isRI(ra.Options[old(len(ra.Options))]) && riMatches(as(ra.Options[old(len(ra.Options))], "*ndp.RouteInformation"), r, r.Prefix, routeLifetime(r, ghost.clockRead))
+//@   ghost local cur Slice
+//@   ghost local cerr Iface
+//@   at call current() (cr, ce): ghost.cur = cr ; ghost.cerr = ce
+//@   ensures E2 [C15]: r.Auto ==> (result != nil) == (ghost.cerr != nil) && (result != nil ==> len(ra.Options) == old(len(ra.Options)))
+//@   ensures E3 [C15]: r.Auto && result == nil ==> len(ra.Options) == old(len(ra.Options)) + len(typed(ghost.cur, "[]netip.Prefix")) && forall(j, 0, len(typed(ghost.cur, "[]netip.Prefix")), isRI(ra.Options[old(len(ra.Options)) + j]) && riMatches(as(ra.Options[old(len(ra.Options)) + j], "*ndp.RouteInformation"), r, typed(ghost.cur, "[]netip.Prefix")[j], routeLifetime(r, ghost.clockRead)))
 //@   opt safety [C01,C17]
 //@   opt frame [C01]
 
